@@ -516,6 +516,19 @@ theorem res_admittive_relabel (h : IsPerm n idx) (adj : Circuit.Adj) (adm : Mat)
   ⟨admDegree_relabel h adm i, anad_relabel h adj adm i, localClustering_c_relabel h adj adm i,
    globalClustering_c_relabel h adj adm⟩
 
+/-- **current-flow betweenness kernels** (`_vertex_current_flow_betweenness_fast`,
+`_edge_current_flow_betweenness_fast`: `for t in range(N): for s in range(t)` with the `continue`
+for `i ∈ {s, t}`, unit currents): for an inverse `R'` of the renumbered network that is the
+renumbered old one on the nodes (`res_inverse_relabel`: it satisfies the same defining equations)
+the vertex values are permuted and the edge values permuted on both axes.  *Partial* in that the
+uniqueness of the Moore–Penrose inverse (so that `update_R` must have stored this `R'`) is not
+proved here; the effective resistances (`res_effRes_relabel`) need no such hypothesis. -/
+theorem res_currentflow_relabel (h : IsPerm n idx) (adm R R' : Mat)
+    (hR : ∀ a b, a < n → b < n → R' a b = R (idx a) (idx b)) (i j : Nat) (hi : i < n) (hj : j < n) :
+    vcfbKernel n 1 1 (mat adm idx) R' i = vcfbKernel n 1 1 adm R (idx i) ∧
+    ecfbKernel n 1 1 (mat adm idx) R' i j = ecfbKernel n 1 1 adm R (idx i) (idx j) :=
+  ⟨vcfb_relabel h adm R R' hR i hi, ecfb_relabel h adm R R' hR i j hi hj⟩
+
 /-! ## C12 model over `Rat`: grids and link-distance measures -/
 open Pyunicorn.Geo
 
